@@ -13,6 +13,7 @@ from harness.lib.group_fakeclient import GroupWorld, show_frac
 KNOWN_JOIN_DURING_STOP = "join-while-stop-drain-pending"
 KNOWN_NONKAFKA_ESCAPE = "F12-nonkafka-error-escaping-join-swallowed"
 KNOWN_REQS_DURING_STOP_DRAIN = "group-requests-during-stop-drain"
+KNOWN_STOP_KILLS_DRAINING = "stop-kills-consumers-draining-for-rejoin"
 
 WHAT = {
     "fenced": "a running partition consumer does not carry the member's current generation/member id, or its partition is not in the current assignment",
@@ -28,6 +29,7 @@ WHAT = {
     "startsWithJoinIds": "consumers were started with a member id / generation other than those of the last successful join reply",
     "strictAfterStop": "a group request other than the leave was issued after stop() had been called (strict reading)",
     "heartbeatIds": "a heartbeat was sent while stopping or wanting a rejoin, or does not quote the member's current generation and member id",
+    "gracefulDrain": "a partition consumer was hard-stopped (no graceful shutdown, no final commit) outside an eviction / fatal error / failed-shutdown fallback",
     "joinLast": "within one step something was observed after the JoinGroup request (e.g. a consumer stopped only after the join was sent)",
     "joinProgress": "the join coroutine is alive but no client request of it is outstanding and no consumer is draining: nothing will ever wake it",
     "neverIdle": "started and not stopping, but no join in flight, no heartbeat timer of a stable member and no rejoin/retry timer: the member is idle",
@@ -88,6 +90,12 @@ def tags_for(name, scn, steps, idx, first):
         if "joinNoRunning" not in first and "stop" in scn["events"][: idx + 1]:
             return [KNOWN_JOIN_DURING_STOP]
         return ["join-with-live-consumers"]
+    if name == "gracefulDrain":
+        # known: stop() (the step that finishes it) hard-stops consumers that a rejoin's on_join_prepare is draining
+        w = ev.split()
+        if w and w[0] in ("stop", "leaveDone") and "snap" in steps[idx] and "stopping=1" in steps[idx]["snap"]:
+            return [KNOWN_STOP_KILLS_DRAINING]
+        return ["gracefulDrain"]
     if name == "strictAfterStop":
         obs = steps[idx]["obs"] if idx is not None and idx < len(steps) else []
         if any(o.split()[0] in ("join", "sync", "loadParts") for o in obs if o):
